@@ -51,8 +51,9 @@ ValidFormatted(req, b, raw, bkEq, mnt) ==
                ELSE sl = <<>>
             /\ raw.dirs[1].tz)
    \cup Tag("C06.fsinfo", ft = 32 => (raw.fi.ok /\ raw.fi.free = N - 1 /\ raw.fi.next >= 2 /\ raw.fi.next <= N + 1))
-   \cup Tag("C06.mounts", mnt.k = "ok" /\ mnt.ft = ft /\ mnt.cs = FromInt(b.bps * b.spc) /\ mnt.tot = n)
-   \cup Tag("C06.free", mnt.k = "ok" => mnt.free = (IF ft = 32 THEN Sub(n, FromInt(1)) ELSE n))
+   \* (the statistics query must work on the fresh volume: it reads the whole table)
+   \cup Tag("C06.mounts", mnt.k = "ok" /\ "tot" \in DOMAIN mnt /\ mnt.ft = ft /\ mnt.cs = FromInt(b.bps * b.spc) /\ mnt.tot = n)
+   \cup Tag("C06.free", (mnt.k = "ok" /\ "free" \in DOMAIN mnt) => mnt.free = (IF ft = 32 THEN Sub(n, FromInt(1)) ELSE n))
 
 \* with default options and 512-byte sectors every size from 42 sectors up must be accepted
 MustSucceed(req) ==
